@@ -109,3 +109,11 @@ for _p in sorted(_glob.glob(_os.path.join(_os.path.dirname(_os.path.abspath(__fi
     _m = _ilu.module_from_spec(_spec)
     _spec.loader.exec_module(_m)
     PROPS[_os.path.basename(_p)[4:-3]] = _m.CFG
+
+# later additions to the descriptions of what the cases cover
+PROPS["C14"]["rule"] += (" Application keys that resemble protocol names (status, message, timeout, encoding, message-type; upgrade-insecure-requests, "
+                          "connection-id, keep-alive-budget) in both directions; outgoing cases also on the Twirp protocol.")
+for _p in ("C01", "C02", "C16"):
+    PROPS[_p]["rule"] += (" Request verbs include WebSocket handshakes (GET + Upgrade: websocket = the custom kind WEBSOCKET; soundness only: the "
+                          "recorder cannot be hijacked); rule sets include sibling variables whose patterns open with literals that are prefixes of "
+                          "one another up to '-' / '.'.")
